@@ -50,7 +50,20 @@ def _reader_str_branches(ctx, fname="_read_str"):
     constants compared with `char` (== / in {...}) in if-tests whose body does not end in raise."""
     fn = ctx.fn(RD, fname)
     accepted = set()
-    for node in ast.walk(fn):
+    # the escape handling may live in module-level helpers the reader function calls with the reader
+    # context (one or two levels): their branches count as the reader's
+    scope, frontier = [fn], [fn]
+    for _lvl in range(2):
+        nxt = []
+        for f_ in frontier:
+            for c in P.calls(f_):
+                if isinstance(c.func, ast.Name) and c.func.id.startswith("_") and c.args and P.un(c.args[0]) == "ctx":
+                    h = P.find_def(ctx.py(RD), c.func.id)
+                    if h is not None and isinstance(h, P.FUNC) and h not in scope and any(isinstance(x, ast.Compare) and P.un(x.left) == "char" for x in ast.walk(h)):
+                        scope.append(h)
+                        nxt.append(h)
+        frontier = nxt
+    for node in (n for f_ in scope for n in ast.walk(f_)):
         if isinstance(node, ast.If):
             if node.body and isinstance(node.body[-1], ast.Raise):
                 continue
@@ -135,8 +148,15 @@ def r2_fixed_width_escape_framing(ctx):
         flags = {t.id for a in ast.walk(helper) if isinstance(a, ast.Assign) and isinstance(a.value, ast.Constant) and a.value.value is True for t in a.targets if isinstance(t, ast.Name)}
         for t in ast.walk(helper):
             if isinstance(t, ast.If):
-                names = P.names_read(t.test)
-                if names & flags and any("HEX" in n.upper() or "hex" in n for n in names | {P.un(x) for x in ast.walk(t.test) if isinstance(x, ast.Attribute)}):
+                names = set(P.names_read(t.test))
+                attrs = {P.un(x) for x in ast.walk(t.test) if isinstance(x, ast.Attribute)}
+                # ... seen through explaining temporaries: the names a tested name was computed from
+                for _round in range(3):
+                    for a in ast.walk(helper):
+                        if isinstance(a, ast.Assign) and any(isinstance(tg, ast.Name) and tg.id in names for tg in a.targets) and not (isinstance(a.value, ast.Constant)):
+                            names |= set(P.names_read(a.value))
+                            attrs |= {P.un(x) for x in ast.walk(a.value) if isinstance(x, ast.Attribute)}
+                if names & flags and any("HEX" in n.upper() or "hex" in n for n in names | attrs):
                     protects = True
     pfn = ctx.fn(OBJ, "_lrepr_str")
     emits_fixed = _uses_codec(pfn) or helper is not None
